@@ -38,11 +38,18 @@ Example ex_state_meets_hypotheses :
 Proof. vm_compute. repeat split; reflexivity. Qed.
 
 (* ---------------------------------------------------------------- *)
-(* hwloc_topology_refresh leaves every cache valid (flags NO_DISTANCES / NO_MEMATTRS not set) *)
+(* hwloc_topology_refresh leaves every cache valid.  NO_MEMATTRS no longer matters (fix 12fb556); under
+   NO_DISTANCES refresh still skips the distances, which is harmless as long as they are valid - and under
+   that flag nothing ever invalidates them (born valid, restrict skips them): second form *)
 Theorem refresh_validates : forall t tp,
-  t_nodist tp = false -> t_nomemattr tp = false -> topo_valid (fst (do_refresh t tp)) = true.
+  t_nodist tp = false -> topo_valid (fst (do_refresh t tp)) = true.
 Proof. exact EventsProofs.refresh_validates. Qed.
 Print Assumptions refresh_validates.
+
+Theorem refresh_validates_any_flags : forall t tp,
+  (t_nodist tp = true -> forallb d_valid (t_dists tp) = true) -> topo_valid (fst (do_refresh t tp)) = true.
+Proof. exact EventsProofs.do_refresh_validates_gen. Qed.
+Print Assumptions refresh_validates_any_flags.
 
 Example refresh_validates_nonvacuous :
   let tp := mkTopo true false false false [mkDist 0 false 4 3; mkDist 1 false 4 1; mkDist 2 true 2 2] 3
@@ -50,15 +57,15 @@ Example refresh_validates_nonvacuous :
   topo_valid tp = false /\ topo_valid (fst (do_refresh 0 tp)) = true /\ length (t_dists (fst (do_refresh 0 tp))) = 2.
 Proof. vm_compute. repeat split; reflexivity. Qed.
 
-(* ... but hwloc_memattr_register / set_value do not look at HWLOC_TOPOLOGY_FLAG_NO_MEMATTRS while
-   hwloc_topology_refresh does: on such a topology refresh cannot validate a user attribute *)
-Theorem refresh_validates_nomemattr_refuted :
-  exists p, all_valid (fst (fst (run_prog ex_s0 (p ++ [OMod 0 MRefresh])))) = false.
-Proof.
-  exists [OInit 0; OLoad 0 (mkCfg false true false [] 0 None false); OMod 0 MMaRegister; OMod 0 (MMaSet 0 true)].
-  vm_compute. reflexivity.
-Qed.
-Print Assumptions refresh_validates_nomemattr_refuted.
+(* regression witness (before fix 12fb556 refresh skipped memattrs under NO_MEMATTRS and this history ended
+   invalid): a user attribute registered on a NO_MEMATTRS topology, a new target, restrict, refresh *)
+Example refresh_nomemattr_user_attribute_regression :
+  let p := [OInit 0; OLoad 0 (mkCfg false true false [] 0 None false); OMod 0 MMaRegister; OMod 0 (MMaSet 0 true)] in
+  all_valid (fst (fst (run_prog ex_s0 p))) = false /\
+  all_valid (fst (fst (run_prog ex_s0 (p ++ [OMod 0 MRefresh])))) = true /\
+  all_valid (fst (fst (run_prog ex_s0 (p ++ [OMod 0 MRefresh; OMod 0 (MRestrict true [])])))) = false /\
+  all_valid (fst (fst (run_prog ex_s0 (p ++ [OMod 0 MRefresh; OMod 0 (MRestrict true []); OMod 0 MRefresh])))) = true.
+Proof. vm_compute. repeat split; reflexivity. Qed.
 
 (* ---------------------------------------------------------------- *)
 (* the end of hwloc_topology_load: loaded and everything valid, for every flag combination, whatever the
@@ -79,8 +86,9 @@ Proof. vm_compute. repeat split; reflexivity. Qed.
 
 (* ---------------------------------------------------------------- *)
 (* EVERY consulting call of the model, on a state whose loaded topologies are all valid: nothing is
-   written and the state is unchanged.  For XML export this needs the statics to be warm (_partial);
-   every other consulting call needs nothing more. *)
+   written and the state is unchanged.  For XML export, and for a synthetic export that emits its verbose
+   warning, this needs the statics they consult to be warm (_partial, [warm_for]); every other
+   consulting call needs nothing more. *)
 Theorem valid_reader_writes_nothing_partial : forall s o,
   all_valid s = true -> reader_ok (s_glob s) o = true ->
   fst (fst (run_op s o)) = s /\ writes (snd (run_op s o)) = [].
@@ -88,9 +96,12 @@ Proof. exact EventsProofs.run_op_reader. Qed.
 Print Assumptions valid_reader_writes_nothing_partial.
 
 Theorem valid_reader_writes_nothing_nonexport : forall s t c,
-  all_valid s = true -> uses_statics c = false -> always_writes c = false ->
+  all_valid s = true -> uses_statics c = false ->
   fst (fst (run_op s (OCons t c))) = s /\ writes (snd (run_op s (OCons t c))) = [].
-Proof. intros s t c V U A. apply EventsProofs.run_op_reader; [exact V|]. simpl. rewrite U, A. reflexivity. Qed.
+Proof.
+  intros s t c V U. apply EventsProofs.run_op_reader; [exact V|]. simpl.
+  destruct c as [| | | | |q a| | | | | |[|]]; try discriminate; reflexivity.
+Qed.
 Print Assumptions valid_reader_writes_nothing_nonexport.
 
 (* the full statement is false: the first XML export on a freshly loaded, fully valid topology writes *)
@@ -156,32 +167,36 @@ Proof.
 Qed.
 Print Assumptions env_cache_first_use_races_refuted.
 
-(* under the warm-up hypothesis (one XML export done before the threads start): no race, any number of
-   threads, any mix of consulting calls including exports *)
+(* under the warm-up hypothesis (one XML export - and, if HWLOC_SYNTHETIC_VERBOSE warnings are possible, one
+   synthetic export - done before the threads start): no race, any number of threads, any mix of
+   consulting calls including exports *)
 Theorem env_cache_first_use_races_partial : forall s progs il,
-  all_valid s = true -> statics_warm (s_glob s) = true ->
-  (forall p, In p progs -> forallb (fun o => match o with OCons _ c => negb (always_writes c) | _ => false end) p = true) ->
+  all_valid s = true -> all_statics_warm (s_glob s) = true ->
+  (forall p, In p progs -> all_cons p = true) ->
   is_interleaving (map (events_of s) progs) il -> race_free il.
 Proof.
-  intros s progs il V W C Hil.
+  intros s progs il V W C Hil. unfold all_statics_warm in W. apply andb_true_iff in W. destruct W as [W1 W2].
   assert (R : forall p, In p progs -> readers_ok (s_glob s) p = true).
-  { intros p Hp. specialize (C p Hp). unfold readers_ok.
-    rewrite forallb_forall in *. intros o Ho. specialize (C o Ho). destruct o; try discriminate.
-    simpl. rewrite C, W. rewrite orb_true_r. reflexivity. }
+  { intros p Hp. specialize (C p Hp). unfold all_cons in C. unfold readers_ok.
+    rewrite forallb_forall in *. intros o Ho. specialize (C o Ho). destruct o as [| | | |t c]; try discriminate.
+    simpl. destruct c as [| | | | |q a| | | | | |[|]]; try reflexivity; assumption. }
   exact (proj1 (proj1 (EventsProofs.interleaving_race_free s progs V R) il Hil)).
 Qed.
 Print Assumptions env_cache_first_use_races_partial.
 
-(* a static that no warm-up cures: hwloc__export_synthetic_memory_children writes `warned = 1` every time
-   its warning condition holds (HWLOC_SYNTHETIC_VERBOSE set, a memory-side cache with several memory
-   children): two synthetic exports race even when each thread has already done one before *)
-Theorem synthetic_verbose_warned_races_refuted :
+(* hwloc__export_synthetic_memory_children's `warned` (HWLOC_SYNTHETIC_VERBOSE set, a memory-side cache
+   with several memory children).  Since fix 128454f it is written at first use only: two FIRST verbose
+   synthetic exports still race (same class as the XML statics), later ones do not.  Before the fix the
+   store was unconditional and no warm-up helped (corpus/c17/synthetic-verbose-shared-memcache.case). *)
+Theorem synthetic_warned_first_use_races_refuted :
   exists s, all_valid s = true /\ statics_warm (s_glob s) = true /\
-    let s1 := fst (fst (run_prog s [OCons 0 (CExportSynth true); OCons 0 (CExportSynth true)])) in
-    conflict_locs (map (events_of s1) [[OCons 0 (CExportSynth true)]; [OCons 0 (CExportSynth true)]]) <> [] /\
-    conflict_locs (map (events_of s1) [[OCons 0 (CExportSynth false)]; [OCons 0 (CExportSynth false)]]) = [].
+    conflict_locs (map (events_of s) [[OCons 0 (CExportSynth true)]; [OCons 0 (CExportSynth true)]]) <> [] /\
+    forallb (loc_eqb (LStChecked SSynthWarned)) (conflict_locs (map (events_of s) [[OCons 0 (CExportSynth true)]; [OCons 0 (CExportSynth true)]])) = true /\
+    let s1 := fst (fst (run_op s (OCons 0 (CExportSynth true)))) in
+    all_statics_warm (s_glob s1) = true /\
+    conflict_locs (map (events_of s1) [[OCons 0 (CExportSynth true)]; [OCons 0 (CExportSynth true)]]) = [].
 Proof. exists ex_state. vm_compute. repeat split; try reflexivity. discriminate. Qed.
-Print Assumptions synthetic_verbose_warned_races_refuted.
+Print Assumptions synthetic_warned_first_use_races_refuted.
 
 (* control (outside the property, which demands the refresh): readers of an UNREFRESHED topology race
    on the distances cache - the harness uses it to show that ThreadSanitizer sees cache races *)
